@@ -28,10 +28,18 @@ var (
 	refTrees = map[string]map[string][]byte{}
 )
 
-const (
-	suffix   = ".gr.go"
-	manifest = "go-restli-manifest.gr.json"
-)
+const suffix = ".gr.go"
+
+// rootModule: this worker drives the ROOT module's generator (other spec format, other name for the file in which it
+// records its input, no custom typerefs, no checked-in manifest)
+var rootModule = os.Getenv("VW_MODULE") == "root"
+
+var manifest = func() string {
+	if rootModule {
+		return "parsed-specs.gr.json"
+	}
+	return "go-restli-manifest.gr.json"
+}()
 
 func owned(p string) bool {
 	b := filepath.Base(p)
@@ -55,7 +63,7 @@ type fault struct {
 func runGen(args []string, cwd string, orderSeed uint64, f *fault, logFile string) procResult {
 	os.Remove(logFile)
 	cmd := exec.Command(gensim, args...)
-	cmd.Env = append(os.Environ(), fmt.Sprintf("GENSIM_ORDER_SEED=%d", orderSeed), "GENSIM_LOG="+logFile)
+	cmd.Env = append(os.Environ(), fmt.Sprintf("GENSIM_ORDER_SEED=%d", orderSeed), "GENSIM_LOG="+logFile, "GENSIM_MANIFEST_NAME="+manifest)
 	if f != nil {
 		cmd.Env = append(cmd.Env, fmt.Sprintf("GENSIM_FAIL_AT=%d", f.at), "GENSIM_FAIL_KIND="+f.kind)
 	}
@@ -107,6 +115,15 @@ func readTree(dir string) (files map[string][]byte, dirs map[string]bool) {
 }
 
 func manifestPath(name string) (string, []string) {
+	if rootModule {
+		if name == "family" {
+			return filepath.Join(famDir, "root.spec.json"), nil
+		}
+		if name == "clash" {
+			return filepath.Join(famDir, "clash.root.spec.json"), nil
+		}
+		return filepath.Join(famDir, "small.root.spec.json"), nil
+	}
 	switch name {
 	case "small":
 		return filepath.Join(famDir, "small.manifest.json"), nil
@@ -145,7 +162,7 @@ func reference(c *harness.Ctx, name string) map[string][]byte {
 // placeCustom puts the family's hand-written custom typeref sources where the generator looks for
 // them (beside the code it generates).
 func placeCustom(manifestName, outDir string) {
-	if manifestName != "family" {
+	if manifestName != "family" || rootModule {
 		return
 	}
 	os.MkdirAll(outDir, 0755)
@@ -223,7 +240,10 @@ func genfs(c *harness.Ctx) {
 		desc[i] = strings.TrimPrefix(desc[i], root+"/")
 	}
 	mname := []string{"small", "small", "restlidata", "family"}[c.Choose(4, "manifest")]
-	if mname == "family" {
+	if rootModule && mname == "restlidata" {
+		mname = "small" // the root module has no checked-in manifest to regenerate from
+	}
+	if mname == "family" && !rootModule {
 		// hand-written custom typeref implementations beside the generated code: foreign files
 		placeCustom(mname, target)
 		if targetMode == 1 {
@@ -452,6 +472,10 @@ func gendet(c *harness.Ctx) {
 		return
 	}
 	mname := []string{"small", "family", "restlidata"}[c.Choose(3, "manifest")]
+	if rootModule && mname == "restlidata" {
+		// instead of the checked-in manifest (the root module has none): two types of one name in a namespace cycle
+		mname = "clash"
+	}
 	ref := reference(c, mname)
 	if ref == nil {
 		return
